@@ -108,6 +108,16 @@ def make_worlds(numpy, regions, quick, rng):
     boxes6 = {q: (o[0], o[1], o[0] + 0.5, o[1] + 0.5) for q, o in enumerate(org6)}
     worlds.append(World('lattice3x2/bound-after-construction 4.125:4.75 step 1/8', r6, boxes6, [(-0.3, 10.2), (0.7, 11.5)], mags_d, True,
                         cells={1: 1, 2: 5}, bins={1: 2, 2: 5}))
+    # W8: a quadtree grid that does not fill its bounding box (three tiles of an L; the fourth is not part of the grid): an event in
+    # the missing tile is inside the box and in no cell
+    import mercantile
+    qk_l = ['121', '120', '123']
+    qt_l = QuadtreeGrid2D.from_quadkeys(qk_l, magnitudes=mags_b)
+    boxes8 = {q: tuple(float(x) for x in qt_l.bounds[q]) for q in range(qt_l.num_nodes)}
+    hole = mercantile.bounds(mercantile.quadkey_to_tile('122'))
+    inside_hole = [((hole.west + hole.east) / 2, (hole.south + hole.north) / 2), (hole.west + 0.25 * (hole.east - hole.west), hole.south + 1.0)]
+    worlds.append(World('quadtree-L-of-three-tiles/bound 4,5,6', qt_l, boxes8, inside_hole, mags_b, True,
+                        cells={1: 0, 2: 2}, bins={1: 0, 2: 2}, quad=True))
     # W7: a lattice whose origins have one more decimal than its spacing (x.x5 at 0.1 deg), built - with its magnitude grid -
     # while the embedding program has a coarse decimal context and terse numpy print options set
     from vh.core import other_surroundings
